@@ -89,10 +89,13 @@ def abbreviate_space_both(s):
 def parse_abbreviated_size(s):
     if s is None or s == "":
         return None
-    m = re.match(r"^(\d+)\s*([KMGTPE]?[I]?[B]?)$", s.upper())
+    # ASCII only: with s.upper() and Unicode \d, "1k\u0131b" (dotless i) was
+    # read as 1 KiB and digits of any script were taken as the number
+    m = re.match(r"^(\d+)\s*([KMGTPE]?[I]?[B]?)$", s, re.IGNORECASE | re.ASCII)
     if not m:
         raise ValueError("unparseable value %s" % s)
     number, suffix = m.groups()
+    suffix = suffix.upper()
     if suffix.endswith("B"):
         suffix = suffix[:-1]
     multiplier = {"":   1,
